@@ -77,33 +77,37 @@ def handle (toks : List Str) : Str :=
     else "BAD-REQUEST".toList
   | [op, a, b, c, d] =>
     let ops := String.ofList op
-    -- BRACEN <sign+digits> <sign+digits> <sign+digits|->   /  BRACEC <char> <char> <sign+digits|->
-    let num (t : Str) : Ck Int :=
+    -- BRACEN <prefix> <sign+digits> <sign+digits> <sign+digits|->   /  BRACEC <prefix> <char> <char> <sign+digits|->
+    let num (t : Str) : Option Int :=
       match t with
-      | '-' :: ds => braceNumber true ((parseNat? ds).getD 0)
-      | '+' :: ds => braceNumber false ((parseNat? ds).getD 0)
-      | ds => braceNumber false ((parseNat? ds).getD 0)
-    let incOf (t : Str) : Ck Int := if t = ['-'] then pure 1 else num t
+      | '-' :: ds => (parseNat? ds).bind (braceNumber true)
+      | '+' :: ds => (parseNat? ds).bind (braceNumber false)
+      | ds => (parseNat? ds).bind (braceNumber false)
+    let incOf (t : Str) : Option Int := if t = ['-'] then some 1 else num t
     let pre := unesc a
+    -- a number the rule rejects: no sequence expression, the word stays as written
+    let literal : Str := "OK ".toList ++ esc (pre ++ ['{'] ++ b ++ "..".toList ++ c ++ (if d = ['-'] then [] else "..".toList ++ d) ++ ['}'])
     if ops = "BRACEN" then
-      showCk (fun ws => okFields (ws.map (fun w => pre ++ intToStr w)))
-        (do let s ← num b; let e ← num c; let i ← incOf d; numSeq s e i)
+      match num b, num c, incOf d with
+      | some s, some e, some i => okFields ((numSeq s e i).map (fun w => pre ++ intToStr w))
+      | _, _, _ => literal
     else if ops = "BRACEC" then
-      match b, c with
-      | [c1], [c2] =>
-        showCk (fun ws => okFields (ws.map (fun w => pre ++ [Char.ofNat w])))
-          (do let i ← incOf d; charSeq c1.toNat c2.toNat i)
-      | _, _ => "BAD-REQUEST".toList
+      match b, c, incOf d with
+      | [c1], [c2], some i => okFields ((charSeq c1.toNat c2.toNat i).map (fun w => pre ++ [Char.ofNat w]))
+      | [_], [_], none => literal
+      | _, _, _ => "BAD-REQUEST".toList
     else "BAD-REQUEST".toList
   | [op, a, b] =>
     let ops := String.ofList op
     if ops = "HIST" then
       match parseNat? a, optLen b with
       | some n, some none =>
-        showCk (fun sk => "OK ".toList ++ natStr (n - sk) ++ [' '] ++ (if n - sk = 0 then ['-'] else natStr (sk + 1))) (histSkip n none)
+        let sk := histSkip n none
+        "OK ".toList ++ natStr (n - sk) ++ [' '] ++ (if n - sk = 0 then ['-'] else natStr (sk + 1))
       | some n, some (some m) =>
         if m < 0 ∨ m > (USIZE_MAX : Int) then "ERR".toList else
-        showCk (fun sk => "OK ".toList ++ natStr (n - sk) ++ [' '] ++ (if n - sk = 0 then ['-'] else natStr (sk + 1))) (histSkip n (some m.toNat))
+        let sk := histSkip n (some m.toNat)
+        "OK ".toList ++ natStr (n - sk) ++ [' '] ++ (if n - sk = 0 then ['-'] else natStr (sk + 1))
       | _, _ => "BAD-REQUEST".toList
     else if ops = "LOOP" then
       match parseInt? b with
